@@ -11,21 +11,27 @@ import (
 
 // Opts steer the project generator.
 type Opts struct {
-	MaxUnits          int  // default 5
-	Layout            bool // random directory layouts, test files, ignored files, non-Java files (C01)
-	Bodies            bool // method bodies with invocations (C02, C05); otherwise short bodies
-	MultiByte         bool // string literals and comments may contain multi-byte characters
-	Interfaces        bool // some units are interfaces
-	NameReuse         bool // the same variable names with different types in different files/methods (C07)
-	ScopedReuse       bool // parameter/local names reused across the methods of a unit with different types, and shadowing fields (C02)
-	ExtraImps         bool // imports that are unused / wildcard / static (C06)
-	Anon              bool // anonymous classes as arguments (new Runnable() { public void run() { ... } })
-	DupNames          bool // some classes share their simple name with a class of another package and are referenced through a wildcard import (metamorphic checks only)
-	Wide              bool // further statement and expression forms: do-while, try-with-resources, synchronized, throw, ternary, casts, super calls, block lambdas, several declarators
-	RichDecl          bool // annotated methods, parameters and fields, comments inside declarations, interface constants, several thrown types, nested generic types
-	SharedMethodNames bool // different classes may declare methods of the same name (decoys for a rename)
-	MaxMethods        int  // default 5
-	NoCtors           bool
+	MaxUnits               int  // default 5
+	Layout                 bool // random directory layouts, test files, ignored files, non-Java files (C01)
+	Bodies                 bool // method bodies with invocations (C02, C05); otherwise short bodies
+	MultiByte              bool // string literals and comments may contain multi-byte characters
+	Interfaces             bool // some units are interfaces
+	NameReuse              bool // the same variable names with different types in different files/methods (C07)
+	ScopedReuse            bool // parameter/local names reused across the methods of a unit with different types, and shadowing fields (C02)
+	ExtraImps              bool // imports that are unused / wildcard / static (C06)
+	Anon                   bool // anonymous classes as arguments (new Runnable() { public void run() { ... } })
+	DupNames               bool // some classes share their simple name with a class of another package and are referenced through a wildcard import (metamorphic checks only)
+	Wide                   bool // further statement and expression forms: do-while, try-with-resources, synchronized, throw, ternary, casts, super calls, block lambdas, several declarators
+	RichDecl               bool // annotated methods, parameters and fields, comments inside declarations, interface constants, several thrown types, nested generic types
+	SharedMethodNames      bool // different classes may declare methods of the same name (decoys for a rename)
+	MaxMethods             int  // default 5
+	NoCtors                bool
+	WordNames              bool // class and method names may carry ordinary words the tool's heuristics react to elsewhere: classes ending in ...test / ...tests (Contest, Latest, Protests), containing Test in the middle, ...Service, ...Util, ...Main; methods getX, setX, isX, testX, mainX (C01)
+	WordDirs               bool // package directories whose names contain the letters "test" (com/acme/contest, org/demo/latest/api) (C01)
+	Loops                  bool // further loop and branch shapes: enhanced for over primitive / array / String / boxed / generic element types, `final` loop variables, a classic for whose loop variable is a project class, bodies of if / else / for / while / do without braces (hence `else if` chains) (C02)
+	WildcardProjectImports bool // a project class of another package may be reached through a wildcard import of its package (alone, or next to the single-type import), among unrelated wildcard imports; simple names stay unique, so the name still denotes one class (C05)
+	SuperCallsDeclared     bool // super.m(...) may call a method the project superclass declares (C05)
+	ModuleLayout           bool // with Layout: also the multi-module Maven layout (core/src/main/java, contest-api/src/test/java) (C01)
 }
 
 // Ann is an annotation as the model records it.
@@ -54,6 +60,7 @@ type Event struct {
 	// for renames: full name (pkg.Class.method) of the project method this call is meant for, "" if none
 	Target   string `json:"target,omitempty"`
 	FinalVar bool   `json:"finalVar,omitempty"` // the receiver is a local variable declared `final`
+	Decl     string `json:"decl,omitempty"`     // where the receiver variable is declared when not in a plain declaration statement: "forinit" (header of a classic for)
 }
 
 // FuncTruth is a declared constructor or method.
@@ -144,6 +151,12 @@ type gen struct {
 
 var pkgPool = []string{"com.acme", "com.acme.core", "org.demo", "app", "com.acme.web.api"}
 
+// wordPkgs (Opts.WordDirs) are packages whose directories contain the letters "test" without being test directories.
+var wordPkgs = []string{"com.acme.contest", "org.demo.latest.api", "app.attest", "com.protests.core"}
+
+// moduleNames are the modules of the multi-module Maven layout (Opts.ModuleLayout).
+var moduleNames = []string{"core", "contest-api"}
+
 type extType struct{ imp, simple string }
 
 var externals = []extType{
@@ -160,6 +173,11 @@ func GenProject(t *rapid.T, o Opts) Project {
 		o.MaxMethods = 5
 	}
 	g := &gen{t: t, o: o, names: NewNames()}
+	g.names.Words = o.WordNames
+	pkgPool := pkgPool
+	if o.WordDirs {
+		pkgPool = append(append([]string(nil), pkgPool...), wordPkgs...)
+	}
 	if o.NameReuse || o.ScopedReuse {
 		g.reuse = []string{"repo", "item", "value", "it"}
 	}
@@ -174,7 +192,11 @@ func GenProject(t *rapid.T, o Opts) Project {
 	}
 	layout := "nested"
 	if o.Layout {
-		layout = rapid.SampledFrom([]string{"nested", "flat", "maven", "maven", "deep"}).Draw(t, "layout")
+		layouts := []string{"nested", "flat", "maven", "maven", "deep"}
+		if o.ModuleLayout {
+			layouts = append(layouts, "modules", "modules")
+		}
+		layout = rapid.SampledFrom(layouts).Draw(t, "layout")
 	}
 	n := rapid.IntRange(1, o.MaxUnits).Draw(t, "nUnits")
 	var p Project
@@ -264,7 +286,7 @@ func GenProject(t *rapid.T, o Opts) Project {
 			case 1:
 				base += "Tests"
 			default:
-				if layout == "maven" {
+				if layout == "maven" || layout == "modules" {
 					// recognised by its directory only
 				} else {
 					base += "Test"
@@ -286,10 +308,13 @@ func GenProject(t *rapid.T, o Opts) Project {
 			} else {
 				s.path = base + ".java"
 			}
-		case "maven":
+		case "maven", "modules":
 			root := "src/main/java/"
 			if s.role == "test" {
 				root = "src/test/java/"
+			}
+			if layout == "modules" {
+				root = moduleNames[rapid.IntRange(0, len(moduleNames)-1).Draw(t, "module")] + "/" + root
 			}
 			if s.role == "ignored" && strings.HasPrefix(dirs, ignoreDir+"/") {
 				s.path = ignoreDir + "/" + root + strings.TrimPrefix(dirs, ignoreDir+"/") + "/" + base + ".java"
@@ -406,6 +431,7 @@ type varInfo struct {
 	ext   bool   // declared type is a plain imported external class
 	extI  int
 	final bool
+	decl  string // "forinit": declared in the header of a classic for
 }
 
 type unitCtx struct {
@@ -426,6 +452,7 @@ type unitCtx struct {
 	sameLine bool   // the member being written continues the line of the previous one
 	pending  string // name of the local variable whose initializer is being written
 	budget   int
+	superIdx int // index of the project superclass, -1 if none
 }
 
 func (g *gen) unit(i int) (string, UnitTruth) {
@@ -475,6 +502,7 @@ func (g *gen) unit(i int) (string, UnitTruth) {
 			}
 		}
 	}
+	u.superIdx = superIdx
 	// header
 	if rapid.IntRange(0, 3).Draw(t, "header") == 0 {
 		w.S("/*\n * " + g.comment("header") + "\n */\n")
@@ -507,6 +535,26 @@ func (g *gen) unit(i int) (string, UnitTruth) {
 				}
 				continue
 			}
+			if g.o.WildcardProjectImports {
+				// 0: the single-type import (plain); 1: only a wildcard import of the package; 2: both
+				form := rapid.IntRange(0, 2).Draw(t, "projectImportForm")
+				if form >= 1 {
+					dup := false
+					for _, im := range imps {
+						if im.text == g.sigs[c].pkg && im.wildcard {
+							dup = true
+						}
+					}
+					if !dup {
+						imps = append(imps, impLine{text: g.sigs[c].pkg, wildcard: true, verdict: "keep", why: "wildcard"})
+					}
+					u.feature("wildcard_project_import")
+				}
+				if form == 1 {
+					u.feature("wildcard_only:" + g.sigs[c].full())
+					continue
+				}
+			}
 			imps = append(imps, impLine{text: g.sigs[c].full()})
 			u.imports[g.sigs[c].full()] = true
 		}
@@ -514,6 +562,9 @@ func (g *gen) unit(i int) (string, UnitTruth) {
 	for _, xi := range exts {
 		imps = append(imps, impLine{text: externals[xi].imp})
 		u.imports[externals[xi].imp] = true
+	}
+	if g.o.WildcardProjectImports && rapid.IntRange(0, 4).Draw(t, "unrelatedWildcard") == 4 {
+		imps = append(imps, impLine{text: rapid.SampledFrom([]string{"java.util", "org.lib.shared", "java.util.function"}).Draw(t, "unrelatedWildcardPkg"), wildcard: true, verdict: "keep", why: "wildcard"})
 	}
 	var usage []string // statements / clauses of the extra method that uses the "used" extra imports
 	var usageAnn, usageThrows string
